@@ -180,16 +180,20 @@ def plan_portfolio(rng, wd: World, prices, bar=0, tight=False):
     nc = min(len(colls), rng.choice([1, 1, 2, 2, 3]))
     cs = rng.sample(colls, nc)
     total = Fraction(int(10 ** rng.uniform(2, 9)))
+    tiny = rng.random() < 0.1
+    if tiny:
+        # an account worth a fraction of a cent: positions of a few atomic units of a 6- or 8-decimals token
+        total = Fraction(rng.randint(2, 400), 10**6)
     weights = [Fraction(rng.choice([1, 1, 5, 20, 100, 1000])) for _ in cs]
     sw = sum(weights)
     sup = []
     for nm, wgt in zip(cs, weights):
         amt = total * wgt / sw / prices[nm]
-        sup.append((nm, dec(amt, rng.choice([4, 9, 18])), True))
+        sup.append((nm, dec(amt, 18 if tiny else rng.choice([4, 9, 18])), True))
     rest = [nm for nm in wd.names if nm not in cs]
     if rest and rng.random() < 0.35:  # a supply that is not collateral (never seized)
         nm = rng.choice(rest)
-        sup.append((nm, dec(total * Fraction(rng.randint(1, 300), 100) / prices[nm], 6), False))
+        sup.append((nm, dec(total * Fraction(rng.randint(1, 300), 100) / prices[nm], 18 if tiny else 6), False))
     cap = sum(F(a) * prices[nm] * wd.ltv[nm] for nm, a, c in sup if c)
     nd = min(len(borrowable), rng.choice([1, 1, 2, 2, 3]))
     ds = rng.sample(borrowable, nd)
@@ -198,7 +202,7 @@ def plan_portfolio(rng, wd: World, prices, bar=0, tight=False):
     bor = []
     for nm, wgt in zip(ds, dw):
         amt = cap * use * wgt / sum(dw) / prices[nm]
-        a = dec(amt, rng.choice([5, 12, 18]))
+        a = dec(amt, 18 if tiny else rng.choice([5, 12, 18]))
         if a > 0:
             bor.append((nm, a))
     return sup, bor
